@@ -1,4 +1,5 @@
 import MesonModel.Life.UpdateLemmas
+import MesonModel.Life.ParentCurrent
 /-
 C08 — option state persists faithfully across the build-directory lifecycle.
 
@@ -229,6 +230,62 @@ theorem drop_builtin_override_returns_global (s : Store) (k : Key) (hk : ahas k 
   · simp [configureOne, bind, M.bind, M.get, M.modify, M.pure, hk]
   · simp [alookup_aerase]
 
+/-! ## `ParentCurrent`: every parent pointer is the object registered under the top-level key -/
+
+/-- `update_project_options` keeps the invariant for *all* children of a replaced object, yielding or overridden
+(the removal pass must not delete a top-level option that still has children) -/
+theorem update_project_options_keeps_parentCurrent (sub : Str) (objs : List (Key × Obj)) (s : Store)
+    (hw : Wf s) (hpc : ParentCurrent s) (hn : ∀ kv ∈ objs, kv.2.parent = none)
+    (hkeep : ∀ k id, alookup k (M.forEach (updateOne sub) objs s).2.options = some id →
+      goneKey objs (M.forEach (updateOne sub) objs s).2 sub k.asRoot = false) :
+    ParentCurrent (updateProjectOptions sub objs s).2 :=
+  MesonModel.Options.update_project_options_keeps_parentCurrent sub objs s hw hpc hn hkeep
+
+/-- … unconditionally when the option file of a subproject is re-read, and for the loop over the entries of any
+option file (every replacement, every new option) -/
+theorem update_subproject_options_keeps_parentCurrent (sub : Str) (objs : List (Key × Obj)) (s : Store)
+    (hsub : sub ≠ []) (hw : Wf s) (hpc : ParentCurrent s) (hn : ∀ kv ∈ objs, kv.2.parent = none) :
+    ParentCurrent (updateProjectOptions sub objs s).2 :=
+  MesonModel.Options.update_subproject_options_keeps_parentCurrent sub objs s hsub hw hpc hn
+
+theorem update_entries_keep_parentCurrent (sub : Str) (objs : List (Key × Obj)) (s : Store) (hw : Wf s)
+    (hpc : ParentCurrent s) (hn : ∀ kv ∈ objs, kv.2.parent = none) :
+    Wf (M.forEach (updateOne sub) objs s).2 ∧ ParentCurrent (M.forEach (updateOne sub) objs s).2 :=
+  updateLoop_keeps sub objs s hw hpc hn
+
+/-- every way of setting or unsetting values (`-D`, `-U`, and on a first invocation the command line,
+default_options and machine-file values) keeps it: no key is inserted, no parent pointer written -/
+theorem setting_values_keeps_parentCurrent (s : Store) (hpc : ParentCurrent s) :
+    (∀ args d, ParentCurrent (setFromConfigure args d s).2) ∧
+    (∀ pdo cmd mf, ParentCurrent (initTop pdo cmd mf s).2) ∧
+    (∀ sub sp pdo cmd mf, ParentCurrent (initSub sub sp pdo cmd mf s).2) :=
+  ⟨fun args d => (PresPC.setFromConfigure args d).run s hpc, fun pdo cmd mf => (PresPC.initTop pdo cmd mf).run s hpc,
+   fun sub sp pdo cmd mf => (PresPC.initSub sub sp pdo cmd mf).run s hpc⟩
+
+/-- with the invariant, dropping the override of an inheriting option returns it to the value of the object that
+`-Dname=…` sets: the one registered under the top-level key -/
+theorem drop_override_returns_inherited_current (s : Store) (k : Key) (id pid : Nat) (o p : Obj)
+    (hx : s.isCross = false) (hm : k.machine = .host) (hw : Wf s) (hpc : ParentCurrent s) (hst : k.subTruthy = true)
+    (ha : alookup k s.augments = none) (hk : alookup k s.options = some id) (ho : s.heap[id]? = some o)
+    (hp : o.parent = some pid) (hpo : s.heap[pid]? = some p) :
+    alookup k.asRoot s.options = some pid ∧ getValueFor (configureOne (k, none) s).2 k = .ok p.value := by
+  have hroot := hpc k id o pid hk ho hp
+  have hne : pid ≠ id := by
+    intro e; subst e
+    exact asRoot_ne_of_subTruthy hst (hw.2 _ _ _ hroot hk)
+  exact ⟨hroot, (configureOne_unset_yielding s k id pid o p hx hm ha hk ho hp hpo hne).2⟩
+
+/-- the variant that re-points only the children that are *yielding* at the moment of the replacement breaks the
+invariant for an overridden child; the defect shows when the parent is changed and the override dropped -/
+theorem repointYieldingOnly_counterexample :
+    ParentCurrent sOverridden ∧ ¬ ParentCurrent (replaceObjY kTop newParent oldParent 0 false sOverridden).2 ∧
+    (getValueFor afterVariant kTop).toOption = some (.str "d".toList) ∧
+    (getValueFor afterVariant kSub).toOption = some (.str "a".toList) ∧
+    (getValueFor afterRepaired kSub).toOption = some (.str "d".toList) :=
+  ⟨repointYieldingOnly_breaks_parentCurrent.1, repointYieldingOnly_breaks_parentCurrent.2,
+   MesonModel.Options.repointYieldingOnly_counterexample.2.2.1, MesonModel.Options.repointYieldingOnly_counterexample.2.2.2,
+   repaired_on_the_same_history.2.2⟩
+
 /-! ## the test tree of harness/c08.py and the histories on which the pinned tree violates the property -/
 
 def S (d : String) : ObjSpec := { kind := .string, default := .str d.toList }
@@ -312,6 +369,18 @@ def hStale : List Cmd := [.setup [bn], .editSet false "shared".toList (C ["a", "
 
 theorem child_follows_replaced_parent :
     effOk (runHist d0 hStale) [] "shared" = some (sv "d") ∧ effOk (runHist d0 hStale) sSub "shared" = some (sv "d") := by
+  decide +kernel
+
+/-- the child is overridden while the parent object is replaced, then the parent changes and the override is dropped -/
+def hOverriddenStale : List Cmd := [.setup [bn], .configure [(sk "shared", some (sv "c"))],
+  .editSet false "shared".toList (C ["a", "b", "c", "n"] "a"), .reconfigure [bn], .configure [(gk "shared", some (sv "n"))],
+  .configure [(sk "shared", none)]]
+
+theorem overridden_child_follows_replaced_parent :
+    effOk (runHist d0 (hOverriddenStale.take 5)) sSub "shared" = some (sv "c") ∧
+    effOk (runHist d0 hOverriddenStale) [] "shared" = some (sv "n") ∧
+    effOk (runHist d0 hOverriddenStale) sSub "shared" = some (sv "n") ∧
+    ((runHist d0 hOverriddenStale).core.map (fun c => staleKeys c.store)) = some [] := by
   decide +kernel
 
 /-- changed choices of a `yield: true` subproject option: the replacement is linked to the parent again -/
